@@ -231,6 +231,21 @@ theorem param_names_injective (k k' : String) (i j : Nat) (h : paramName k i = p
   obtain ⟨h1, h2⟩ := split_last_underscore _ _ _ _ hi hj h
   exact ⟨String.ext h1, repr_injective i j h2⟩
 
+/-- **The table of fitted parameters finds an element's variables by the suffix `_<index>`**
+(`name.endswith(f"_{index}")` in `_extract_parameters`): a name built for element `i` has the suffix of element `j`
+exactly when `i = j` — also when the parameter symbol itself contains underscores or digits, and for indices with
+any number of digits (`R_10` does not end with `_0`). -/
+theorem suffix_match_iff (k : List Char) (i j : Nat) :
+    ('_' :: (Nat.repr j).toList) <:+ (k ++ '_' :: (Nat.repr i).toList) ↔ i = j := by
+  have hi : '_' ∉ (Nat.repr i).toList := by rw [Nat.toList_repr]; exact Nat.underscore_not_in_toDigits
+  have hj : '_' ∉ (Nat.repr j).toList := by rw [Nat.toList_repr]; exact Nat.underscore_not_in_toDigits
+  constructor
+  · rintro ⟨pre, hpre⟩
+    obtain ⟨_, h2⟩ := split_last_underscore pre k _ _ hj hi hpre
+    exact (repr_injective j i h2).symm
+  · rintro rfl
+    exact ⟨k, rfl⟩
+
 /-- non-vacuity: a container with a nested sub-circuit and a shared element object -/
 example : elements (.conn [.elem ⟨0, "R", ""⟩ [], .elem ⟨1, "Tlm", ""⟩ [.conn [.elem ⟨2, "R", "a"⟩ [], .elem ⟨0, "R", ""⟩ []]], .elem ⟨3, "C", ""⟩ []])
     = [⟨0, "R", ""⟩, ⟨1, "Tlm", ""⟩, ⟨3, "C", ""⟩, ⟨2, "R", "a"⟩] := by decide
